@@ -322,7 +322,15 @@ func (fs *FS) Rename(oldname, newname string) error {
 		if err != nil {
 			return linkErr("rename", oldname, newname, err)
 		}
-		err = fs.setFileTxn(txn, newname, oldFile.fileData, contents)
+		var setErr error
+		err = fs.setFileTxnHandler(txn, newname, oldFile.fileData, contents, OpHandlerFunc(func(txn Transaction, result OpResult) error {
+			if result.Err != nil {
+				// the new name could not be written: stop here, the old name must survive
+				setErr = result.Err
+				return txn.Abort()
+			}
+			return nil
+		}))
 		if err == nil {
 			err = fs.setFileTxn(txn, oldname, nil, nil)
 		}
@@ -330,6 +338,9 @@ func (fs *FS) Rename(oldname, newname string) error {
 			_ = txn.Abort()
 		} else {
 			err = commitTxn(txn)
+		}
+		if setErr != nil {
+			err = setErr
 		}
 		return linkErr("rename", oldname, newname, err)
 	}
